@@ -386,3 +386,58 @@ def run(ctx):
         if ports:
             ctx.sample({'ports': [list(t) for t in ports][:3], 'first': rec['firstE'], 'names_ebb3': rec['namesE'],
                         'names_legacy': rec['namesL']})
+
+    # ---- separate block: the SOURCE-REGENERATED discovery functions (translator/pyio2lean.py), both layers ----
+    gen_discovery_stream(ctx, records, (ebb_serial, ebb3_serial, slp), install, saved)
+
+
+def gen_discovery_stream(ctx, records, mods, install, saved, cap=1400, max_keys=10):
+    """Gen.ebb_serial_findPort / listEBBports / list_named_ebbs / list_port_info / find_named_ebb, Gen.EBB3_find_first,
+    Gen.ebb3_serial_list_ebb_ports / list_named_ebbs / find_named with `comports()` as an input: the results the
+    implementation produced for every port list of this run must be reproduced exactly"""
+    from . import legacygen as G
+    if ctx.driver is None:
+        return
+    ebb_serial, ebb3_serial, slp = mods
+    recs = [r for r in records if r['err'] is None and G.ascii_only(*[x for t in r['ports'] for x in t])]
+    if len(recs) > cap:
+        step = len(recs) / cap
+        recs = [recs[int(i * step)] for i in range(cap)]
+    lines, mine, inps = [], [], []
+    try:
+        for rec in recs:
+            ports = rec['ports']
+            install(list(rec['objs']))
+            info, _ = G.result_of(ebb_serial.list_port_info)
+            calls = ['ebb_serial_findPort', '@find_first', 'ebb_serial_listEBBports', 'ebb3_serial_list_ebb_ports',
+                     'ebb_serial_list_named_ebbs', 'ebb3_serial_list_named_ebbs', 'ebb_serial_list_port_info']
+            want = ['V' + G.show(rec['firstL']), 'V' + G.show(rec['firstE']), 'V' + G.show(rec['listL']), 'V' + G.show(rec['listE']),
+                    'V' + G.show(rec['namesL']), 'V' + G.show(rec['namesE']), info]
+            keys = [(k, f) for (k, _), f in zip(rec['keys'], rec['finds']) if f[2] is None and (k is None or G.ascii_only(k))]
+            if len(keys) > max_keys:
+                stepk = len(keys) / max_keys
+                keys = [keys[int(i * stepk)] for i in range(max_keys)]
+            for k, (rL, rE, _) in keys:
+                calls += [G.call_tok('ebb_serial_find_named_ebb', (k,)), G.call_tok('ebb3_serial_find_named', (k,))]
+                want += ['V' + G.show(rL), 'V' + G.show(rE)]
+            lines.append(G.line('.', '.', G.comports_tok(ports), calls))
+            mine.append([w + ' . 0' for w in want])
+            inps.append({'ports': [list(t) for t in ports], 'calls': calls})
+        # comports() raising TypeError: every function returns None
+        def boom(*a, **k):
+            raise TypeError('comports failed')
+        ebb_serial.comports = ebb3_serial.comports = slp.comports = boom
+        tcalls = [('ebb_serial_findPort', ebb_serial.findPort), ('ebb_serial_listEBBports', ebb_serial.listEBBports),
+                  ('ebb3_serial_list_ebb_ports', ebb3_serial.list_ebb_ports), ('ebb_serial_list_named_ebbs', ebb_serial.list_named_ebbs),
+                  ('ebb3_serial_list_named_ebbs', ebb3_serial.list_named_ebbs), ('ebb_serial_list_port_info', ebb_serial.list_port_info),
+                  ('ebb_serial_find_named_ebb:s66,111,98', lambda: ebb_serial.find_named_ebb('Bob')),
+                  ('ebb3_serial_find_named:s66,111,98', lambda: ebb3_serial.find_named('Bob'))]
+        lines.append(G.line('.', '.', 'T', [c for c, _ in tcalls]))
+        mine.append([G.result_of(f)[0] + ' . 0' for _, f in tcalls])
+        inps.append({'ports': 'comports() raises TypeError'})
+    finally:
+        ebb_serial.comports, ebb3_serial.comports, slp.comports = saved
+    answers = ctx.driver.batch(lines)
+    for m, ans, inp in zip(mine, answers, inps):
+        G.compare(ctx, 'C19 discovery', inp, m, ans)
+    ctx.notes.append(f'regenerated discovery functions: {sum(len(m) for m in mine)} calls on {len(recs)} port lists compared with the implementation')
